@@ -579,6 +579,8 @@ func (c *evalCtx) evalIndex(x *EIndex) TV {
 			typ = types.Typ[types.Int]
 		} else if es == "Str" {
 			typ = types.Typ[types.String]
+		} else if strings.HasPrefix(es, "(_ BitVec") {
+			typ = bvTypeOfSort(es)
 		}
 		return TV{T: fmt.Sprintf("(select %s %s)", v.T, i.T), Typ: typ, Sort: es}
 	}
@@ -705,6 +707,21 @@ func (c *evalCtx) evalCall(x *ECall) TV {
 			}
 		}
 		c.fail("addr(%s): no such address-taken local", id.Name)
+	case "ifaceas":
+		// ifaceas("T", x): x boxed as a value of the named type T
+		ts, ok := x.Args[0].(*EStr)
+		if !ok {
+			c.fail("ifaceas(\"T\", x)")
+		}
+		t := e.resolveType(ts.V)
+		if t == nil {
+			c.fail("unknown type %q", ts.V)
+		}
+		v := c.eval(x.Args[1])
+		if v.Sort != e.st.sortOf(t) {
+			c.fail("ifaceas: %s has sort %s, type %s needs %s", x.Args[1].String(), v.Sort, ts.V, e.st.sortOf(t))
+		}
+		return TV{T: e.box(v.T, t), Typ: types.NewInterfaceType(nil, nil), Sort: "Iface"}
 	case "deref":
 		v := c.eval(x.Args[0])
 		if v.Typ == nil {
@@ -868,6 +885,8 @@ func ghostGoType(s string) types.Type {
 		return types.Typ[types.Int64]
 	case "i32":
 		return types.Typ[types.Int32]
+	case "float":
+		return types.Typ[types.Float64]
 	}
 	return nil
 }
